@@ -36,6 +36,7 @@ struct RcptState {
   int chan = -1;
   int attempts = 0; bool inflight = false; char final_report = 0;   // 'K', 'D' (incl. expired Z), 0 = none yet
   bool marked = false;       // a 'D' byte was written over its record
+  bool ever_D = false;
   bool attempted_in_pass = false;
   bool awaiting_mark = false; // (unused) // reported K/D; the daemon's next mark write for this message/channel must cover this record
   std::string reason;
@@ -45,6 +46,7 @@ struct RcptState {
 struct MsgState {
   long num = 0; std::string sender; std::vector<RcptState> rc; bool is_bounce = false; long committed_at = 0; int injector_uid = 0;
   bool gone = false;         // info unlinked
+  bool bounced = false;      // a bounce notice for it has been queued
   int eliminated_by = 0;     // pid of the qmail-send that unlinked info
   std::string body;
   long birth = 0;            // mtime of info/N
@@ -66,12 +68,14 @@ struct DaemonScenario : Scenario {
   std::string cmdbuf[2];
   std::vector<Delivery> inflight; int serial = 0;
   size_t tick_pos = std::string::npos, tick_end = 0; int tick_cnt = 0;
+  bool catchall = false;         // control/virtualdomains also has a catch-all entry and an exception
   bool expect_leftovers = false; // failed or hung injections legitimately leave S2/S3 files that are collected after 36 hours
   bool mark_check_off = false;   // after an injected failure inside the daemon the report/mark alignment is unknown until it restarts
   std::deque<std::pair<long, std::string>> markfifo[2];   // K/D reports sent and not yet followed by the daemon's mark write, per channel
   std::map<long, MsgState> ledger;    // by queue number (current holder of the number)
   std::vector<MsgState> finished;     // messages that left the queue
   std::vector<int> injectors;         // live injector pids
+  std::vector<int> own_injectors;     // every injector the scenario itself started (anything else that commits was started by the daemon)
   bool machine_crashed = false, data_lost = false, daemon_killed = false; bool term_sent = false;
   int events = 0; int reports_sent = 0; bool ended_clean = false; int faults_seen = 0;
   std::string history;                // human-readable event history
@@ -87,6 +91,7 @@ struct DaemonScenario : Scenario {
     while (i < ms.size()) { size_t j = ms.find('+', i); if (j == std::string::npos) j = ms.size(); std::string n = ms.substr(i, j - i); for (auto &x : cat) if (x.name == n) tosend.push_back(x); i = j + 1; }
     inject_mode = c.get("inject", "seq");
     conc_l = c.geti("concl", 2); conc_r = c.geti("concr", 2); announce = c.geti("announce", 120); lifetime = c.geti("lifetime", 604800);
+    catchall = c.geti("catchall", 0);
     max_ticks = c.geti("maxticks", 60); max_restarts = c.geti("maxrestarts", 3); clock_frozen = c.geti("frozenclock", 0);
   }
   bool M(const char *m) { return mon.count(m) > 0; }
@@ -97,7 +102,7 @@ struct DaemonScenario : Scenario {
     QmailEnv::build(w, cfg);
     Kernel &k = w.k;
     k.put_file("/var/qmail/control/locals", "a.com\n");
-    k.put_file("/var/qmail/control/virtualdomains", "virt.example:vuser\n.virt.example:vsub\n");
+    k.put_file("/var/qmail/control/virtualdomains", std::string("virt.example:vuser\n.virt.example:vsub\n") + (catchall ? ":catchall\nfar2.example:\n" : ""));
     k.put_file("/var/qmail/control/concurrencylocal", std::to_string(conc_l) + "\n");
     k.put_file("/var/qmail/control/concurrencyremote", std::to_string(conc_r) + "\n");
     k.put_file("/var/qmail/control/queuelifetime", std::to_string(lifetime) + "\n");
@@ -141,7 +146,7 @@ struct DaemonScenario : Scenario {
     std::string env = "F" + m.sender + '\0'; for (auto &r : m.rcpts) env += "T" + r + '\0'; env += '\0';
     std::map<int, int> fds; fds[0] = QmailEnv::preloaded_pipe(w, m.body); fds[1] = QmailEnv::preloaded_pipe(w, env); fds[2] = QmailEnv::nullfd(w);
     int pid = w.spawn("/var/qmail/bin/qmail-queue", {"qmail-queue"}, fds, m.uid, GID_QMAIL, "/");
-    injectors.push_back(pid); w.counters["injections"]++;
+    injectors.push_back(pid); own_injectors.push_back(pid); w.counters["injections"]++;
     return pid;
   }
   Proc *proc(World &w, int pid) { for (auto &pp : w.procs) if (pp && pp->vpid == pid && pp->st != P_REAPED) return pp.get(); return nullptr; }
@@ -154,16 +159,19 @@ struct DaemonScenario : Scenario {
     if (dom == "a.com") { *chan = 0; return a; }
     if (dom == "virt.example") { *chan = 0; return "vuser-" + a; }
     if (dom.size() > 13 && dom.compare(dom.size() - 13, 13, ".virt.example") == 0) { *chan = 0; return "vsub-" + a; }
+    if (catchall && dom != "far2.example") { *chan = 0; return "catchall-" + a; }   // ":catchall" entry; "far2.example:" is the documented exception
     *chan = 1; return a;
   }
-  void accept(World &w, long num, int uid) {
+  void accept(World &w, long num, int uid, bool by_daemon = false) {
     Inode *t = w.k.file(QmailEnv::qpath("todo", num, false)); if (!t) return;
     MsgState ms; ms.num = num; ms.committed_at = w.k.clock; ms.injector_uid = uid;
     for (auto &rec : split0(t->data)) { if (rec.empty()) continue; if (rec[0] == 'F') ms.sender = rec.substr(1); else if (rec[0] == 'T') { RcptState r; r.addr = rec.substr(1); r.routed = route(r.addr, &r.chan); ms.rc.push_back(r); } }
     Inode *m = w.k.file(QmailEnv::messpath(num)); if (m) ms.body = m->data;
-    ms.is_bounce = (uid == UID_QMAILS && (ms.sender.empty() || ms.sender == "#@[]") && ms.body.find("Hi. This is the qmail-send program") != std::string::npos);
+    ms.is_bounce = (by_daemon && uid == UID_QMAILS && (ms.sender.empty() || ms.sender == "#@[]") && ms.body.find("Hi. This is the qmail-send program") != std::string::npos);
     auto it = ledger.find(num);
     if (it != ledger.end() && !it->second.gone && M("C02")) w.violation("C02:number-shared:" + std::to_string(num), "message number " + std::to_string(num) + " was given to a new message while the previous holder is still in the queue");
+    if (ms.is_bounce && M("C14")) check_bounce(w, ms);
+    if (by_daemon && !ms.is_bounce && M("C14")) w.violation("C14:daemon-injected-non-bounce", "qmail-send queued a message that is not a bounce notice: sender [" + ms.sender + "]");
     ledger[num] = ms;
     w.counters[ms.is_bounce ? "bounces_queued" : "messages_accepted"]++;
   }
@@ -176,6 +184,52 @@ struct DaemonScenario : Scenario {
     for (auto &kv : ledger) if (look(kv.second)) return true;
     for (auto &b : finished) if (look(b)) return true;
     return false;
+  }
+
+  // ------------------------------------------------------------------ C14: bounce notices
+  std::string bouncehost = "me.example", doublebounceto = "postmaster@me.example";
+  static std::string base_sender(const std::string &s) { if (s.size() >= 4 && s.compare(s.size() - 4, 4, "-@[]") == 0) return s.substr(0, s.size() - 4); return s; }
+  void check_bounce(World &w, MsgState &b) {
+    w.counters["bounce_notices_checked"]++;
+    // which original does it belong to?  The failed recipients' addresses are unique across the scenario.
+    size_t intro_end = b.body.find("\n\n", b.body.find("Hi. This is the qmail-send program"));
+    size_t below = b.body.find("--- Below this line is ");
+    // the real end of the paragraph region is the LAST "--- Below" marker that is followed by the copy of the original: search from the
+    // recipient paragraphs' own structure instead: every paragraph starts with '<'
+    if (intro_end == std::string::npos || below == std::string::npos) { w.violation("C14:notice-format", "bounce notice lacks the documented structure"); return; }
+    MsgState *orig = nullptr; std::vector<MsgState *> cands;
+    for (auto &kv : ledger) if (!kv.second.gone) cands.push_back(&kv.second);
+    // the original is the (unique) message all of whose recipients are finished and that has D-final recipients not yet named in an earlier bounce
+    for (auto *m : cands) { bool anyD = false, alldone = true; for (auto &r : m->rc) { if (r.final_report == 'D') anyD = true; if (!r.final_report && !r.marked) alldone = false; } if (anyD && alldone && !m->bounced) { if (b.body.find("<" + m->rc[0].addr + ">:") != std::string::npos || true) { bool named = false; for (auto &r : m->rc) if (r.final_report == 'D' && b.body.find("<" + r.addr + ">:\n") != std::string::npos) named = true; if (named) { orig = m; break; } } } }
+    if (!orig) { if (!machine_crashed && !daemon_killed) w.violation("C14:bounce-without-failed-recipient", "a bounce notice was queued that names no permanently failed recipient of any message in the queue: envelope sender [" + b.sender + "] to [" + (b.rc.empty() ? "" : b.rc[0].addr) + "]"); return; }
+    orig->bounced = true;
+    bool isdouble = orig->sender.empty();
+    // envelope
+    std::string want_sender = isdouble ? "#@[]" : "", want_rcpt = isdouble ? doublebounceto : base_sender(orig->sender);
+    if (orig->sender == "#@[]") { w.violation("C14:bounce-of-double-bounce", "a failing double bounce (sender #@[]) produced yet another notice: bounce loop"); return; }
+    if (b.sender != want_sender || b.rc.size() != 1 || b.rc[0].addr != want_rcpt) { w.violation("C14:bounce-envelope:" + orig->sender, "bounce for a message from [" + orig->sender + "] was queued with envelope sender [" + b.sender + "] recipient [" + (b.rc.empty() ? "" : b.rc[0].addr) + "]; documented: sender [" + want_sender + "] recipient [" + want_rcpt + "]"); return; }
+    // paragraphs: between the intro and the copy of the original message
+    std::string copy_marker = isdouble ? "--- Below this line is the original bounce.\n\n" : "--- Below this line is a copy of the message.\n\n";
+    std::string tail = copy_marker + "Return-Path: <" + base_sender(orig->sender) + ">\n" + orig->body;
+    if (b.body.size() < tail.size() || b.body.compare(b.body.size() - tail.size(), tail.size(), tail) != 0) { if (orig->sender.find_first_of(" \"") == std::string::npos) { w.violation("C14:original-not-appended", "bounce notice does not end with the marker line, Return-Path and the original message"); return; } }
+    size_t region_end = b.body.size() - tail.size();
+    std::string region = b.body.substr(intro_end + 2, region_end > intro_end + 2 ? region_end - intro_end - 2 : 0);
+    std::vector<std::string> paras; size_t i = 0;
+    while (i < region.size()) { size_t j = region.find("\n\n", i); if (j == std::string::npos) { paras.push_back(region.substr(i)); break; } paras.push_back(region.substr(i, j - i)); i = j + 2; }
+    std::vector<std::string> failed; for (auto &r : orig->rc) if (r.final_report == 'D') failed.push_back(r.addr);
+    bool lost = data_lost;
+    std::set<std::string> seen;
+    for (auto &pg : paras) {
+      if (pg.empty()) { w.violation("C14:empty-paragraph", "bounce notice contains an empty paragraph inside the recipient list"); return; }
+      size_t e = pg.find(">:\n"); std::string addr = (pg[0] == '<' && e != std::string::npos) ? pg.substr(1, e - 1) : std::string();
+      bool isfailed = std::find(failed.begin(), failed.end(), addr) != failed.end();
+      if (!isfailed && (machine_crashed || daemon_killed)) for (auto &r : orig->rc) if (r.addr == addr && r.ever_D) isfailed = true;   // a paragraph written before the crash survives; the retry may have succeeded
+      if (!isfailed) { w.violation("C14:forged-paragraph", "bounce notice contains a paragraph that does not belong to a failed recipient of the message: [" + esc(pg, 80) + "] (failure text was able to forge a recipient paragraph)"); return; }
+      if (seen.count(addr) && !(machine_crashed || daemon_killed)) { w.violation("C14:recipient-named-twice", "recipient " + addr + " occupies more than one paragraph of the notice"); return; }
+      seen.insert(addr);
+    }
+    if (!lost) for (auto &f : failed) if (!seen.count(f)) { w.violation("C14:failed-recipient-not-named", "permanently failed recipient " + f + " is not named in the bounce notice"); return; }
+    w.counters[isdouble ? "double_bounces_checked" : "single_bounces_checked"]++;
   }
 
   // ------------------------------------------------------------------ queue state table (C02)
@@ -279,8 +333,8 @@ struct DaemonScenario : Scenario {
       rc->inflight = false;
       bool dying = (d.started > m->birth + lifetime);
       if (verdict == 'K') { rc->final_report = 'K'; rc->k_reports++; markfifo[d.chan].push_back({d.msg, rc->routed}); }
-      else if (verdict == 'D') { rc->final_report = 'D'; rc->reason = text; markfifo[d.chan].push_back({d.msg, rc->routed}); }
-      else if (verdict == 'Z') { if (dying) { rc->final_report = 'D'; rc->reason = text; markfifo[d.chan].push_back({d.msg, rc->routed}); w.counters["expired_deferrals"]++; } else if (m) m->had_defer[d.chan] = true; }
+      else if (verdict == 'D') { rc->final_report = 'D'; rc->ever_D = true; rc->reason = text; markfifo[d.chan].push_back({d.msg, rc->routed}); }
+      else if (verdict == 'Z') { if (dying) { rc->final_report = 'D'; rc->ever_D = true; rc->reason = text; markfifo[d.chan].push_back({d.msg, rc->routed}); w.counters["expired_deferrals"]++; } else if (m) m->had_defer[d.chan] = true; }
       else if (m) m->had_defer[d.chan] = true;   // garbage is a deferral
     }
     w.counters[std::string("reports_") + (verdict == 'K' || verdict == 'Z' || verdict == 'D' ? std::string(1, verdict) : "garbage")]++;
@@ -295,7 +349,7 @@ struct DaemonScenario : Scenario {
     if (st.injected && st.err) { faults_seen++; w.counters["faults_injected"]++; history += " FAULT(" + opname(st.op) + " " + st.path + ")"; }
     if (w.aborted) return;
     bool fsop = (st.op == VK_LINK || st.op == VK_UNLINK || st.op == VK_RENAME || st.op == VK_OPEN || st.op == VK_KILL);
-    if (st.op == VK_LINK && st.ret == 0 && st.path2.compare(0, 5, "todo/") == 0) { accept(w, atol(st.path2.c_str() + 5), p.uid); if (M("C01")) check_commit(w, atol(st.path2.c_str() + 5)); }
+    if (st.op == VK_LINK && st.ret == 0 && st.path2.compare(0, 5, "todo/") == 0) { accept(w, atol(st.path2.c_str() + 5), p.uid, std::find(own_injectors.begin(), own_injectors.end(), p.vpid) == own_injectors.end()); if (M("C01")) check_commit(w, atol(st.path2.c_str() + 5)); }
     if (M("C02") && fsop && st.ret >= 0) check_qstate(w, ("after " + opname(st.op) + " " + st.path + " by " + p.name.substr(p.name.rfind('/') + 1)).c_str());
     if (p.vpid == sendpid) {
       if (st.op == VK_WRITE && st.kind == K_FILE && st.ret == 1 && st.data && *st.data == "D") on_mark(w, st);
@@ -526,6 +580,7 @@ struct DaemonScenario : Scenario {
       if (c >= sig_base) { send_signal(w, c - sig_base); return true; }
       Ev e = evs[c];
       if (e.v == 'X') { Delivery d = inflight[e.idx]; std::string g; g.push_back((char) d.delnum); g += "?garbled"; g.push_back('\0'); inflight.erase(inflight.begin() + e.idx); rep[d.chan]->buf += g; MsgState *m = find_msg(d.msg); RcptState *r = m ? find_rcpt(*m, d.recip, d.chan) : nullptr; if (r) r->inflight = false; if (m) m->had_defer[d.chan] = true; w.counters["reports_garbage"]++; history += " " + d.recip + "=garbled"; }
+      else if (e.v == 'F') send_report(w, e.idx, 'D', "user unknown\n\n<victim@a.com>:\nforged paragraph\n\n\n--- Below this line is a copy of the message.\n");   // hostile failure text
       else send_report(w, e.idx, e.v, e.v == 'K' ? "ok\n" : e.v == 'Z' ? "try later\n" : "no such user\n");
       return true;
     }
